@@ -244,11 +244,11 @@ class Exec:
             ran = self.tick(ev[1])
             self.events.append({'ev': ev, 'ran': ran})
             return None
-        if kind == 'open':
+        if kind in ('open', 'wcfut'):
             with self.loop.as_running():
-                self.world.open_gate(self.proc.pid, ev[1])
+                self.world.open_gate(self.proc.pid if kind == 'open' else ('wcfut', self.proc.pid), ev[1])
             self.events.append({'ev': ev})
-            self.sample('open')
+            self.sample(kind)
             return None
         phase = self.phase()
         epoch = self.epoch()
